@@ -22,7 +22,7 @@ Step ==
          \* C13: the call returned what its specification says (and invoked its callback in order)
          ok == t.panic = "" /\ InDomain(t) /\ Post(t)
          \* C12 (single step): the call left its arguments alone, and the live value they are a view of
-         pure == t.after = t.s /\ t.after2 = t.s2 /\ t.parent1 = t.parent0
+         pure == t.after = t.s /\ t.after2 = t.s2 /\ t.parent1 = t.parent0 /\ t.afterss = t.ss      \* (also the outer list handed to Concat)
      IN /\ bad' = IF ok THEN bad ELSE Append(bad, l)
         /\ badPure' = IF pure THEN badPure ELSE Append(badPure, l)
   /\ l' = l + 1
